@@ -250,6 +250,30 @@ fn c10(tier: Tier, seed: u64) -> i32 {
     ctx.run_batch("pause_resume", "as above with pause/resume-focused scripts", n2, |rs, _| {
         gen_sched(rs, &GenOpts { prop: "C10", style: ScriptStyle::PauseFocused, tier, allow_abort: false, natural_divergences: true })
     });
+    let n3 = ctx.n(24, 1200);
+    ctx.run_batch("wide_model", "as above for models with 2^16..2^18 unconstrained parameters (few chains, few draws, depth <= 2): work that the math back-end only splits up for large vectors must not make a chain depend on the number of cores, on the other chains or on the schedule", n3, |rs, i| {
+        let mut sc = gen_sched(rs, &GenOpts { prop: "C10", style: ScriptStyle::Mixed, tier, allow_abort: false, natural_divergences: false });
+        let mut r = Prng::sub(rs, "wide");
+        let d = *r.pick(&[1usize << 16, 70_001, 100_000, 1 << 17, 200_003, 1 << 18]);
+        sc.model.target = crate::density::std_normal(d);
+        sc.model.density_faults.clear();
+        let nc = r.range(1, 2) as usize;
+        // diagonal NUTS: the low-rank and flow strategies are quadratic in memory for such models
+        // (MCLMC takes hundreds of steps per draw with default settings: too slow for this width)
+        let _ = i;
+        let mut s = nuts_rs::DiagNutsSettings::default();
+        s.num_chains = nc;
+        s.maxdepth = 2;
+        s.seed = r.next_u64();
+        sc.preset = crate::chain::Preset::DiagNuts(s);
+        let nt = r.range(1, 3);
+        sc.preset.set_num_tune(nt);
+        fix_early_window(&mut sc.preset, nt);
+        sc.preset.set_num_draws(r.range(1, 2));
+        sc.num_cores = r.range(1, 4) as usize;
+        sc.n_schedules = 2;
+        sc
+    });
     ctx.finish("exploration", components_engine_b(), vec![
         "the uninterrupted trace is taken from the system itself (FIFO schedule, one core, no commands), not from a re-implementation of the seeding protocol".into(),
         "rayon is a stand-in; work inside one chain is sequential in the real code too".into(),
@@ -340,7 +364,39 @@ fn c13(tier: Tier, seed: u64) -> i32 {
         }
         sc
     });
-    ctx.finish("fault_enumeration", components_engine_b(), vec![
+    // the real Zarr backends over a failing store (engine C): the error must come out of the backend's own
+    // calls; that an error of record_sample / flush / finalize comes out of the sampler is shown above
+    let n3 = ctx.n(300, 40_000);
+    ctx.run_batch("zarr_backend_write_faults", "real Zarr (sync) backend over a store whose k-th write fails; k seeded over the whole run or counted back from the last write of the fault-free run (final chunks, finalize): some call of the backend must return Err, none may panic; non-trivial = the fault fired", n3, |rs, i| {
+        let mut sc = gen_store(rs, "C13", &[Backend::ZarrSync]);
+        let mut r = Prng::sub(rs, "storefault");
+        if i % 2 == 0 { sc.fail_write = Some(r.below(400)) } else { sc.fail_write_from_end = Some(r.below(16)) }
+        sc
+    });
+    let n4 = ctx.n(120, 12_000);
+    ctx.run_batch("zarr_async_backend_write_faults", "real async Zarr backend (tokio runtime, seeded write delays) over a store whose k-th write fails, biased to the last writes of a chain (queued chunk writes joined in finalize)", n4, |rs, i| {
+        let mut sc = gen_store(rs, "C13", &[Backend::ZarrAsync]);
+        let mut r = Prng::sub(rs, "asyncfault");
+        let nt = sc.preset.num_tune().min(8);
+        sc.preset.set_num_tune(nt);
+        fix_early_window(&mut sc.preset, nt);
+        let nd = sc.preset.num_draws().min(8).max(if nt == 0 { 1 } else { 0 });
+        sc.preset.set_num_draws(nd);
+        sc.vars.truncate(3);
+        sc.chunk_size = *r.pick(&[1u64, 2, 4, nd.max(1)]);
+        sc.flush_prob = *r.pick(&[0.0, 0.0, 0.3]);
+        if i % 3 == 0 { sc.fail_write = Some(r.range(60, 400)) } else { sc.fail_write_from_end = Some(r.below(24)) }
+        sc
+    });
+    let mut comp = components_engine_b();
+    if let (Some(o), Some(c)) = (comp.as_object_mut(), components_engine_c().as_object()) {
+        for k in ["real_code", "stubs", "seams"] {
+            if let (Some(J::Array(a)), Some(J::Array(b))) = (o.get_mut(k), c.get(k)) {
+                a.extend(b.iter().cloned());
+            }
+        }
+    }
+    ctx.finish("fault_enumeration", comp, vec![
         "a fault counts only if the stub recorded that it fired (a fault scheduled behind an abort or in a chain that stopped earlier does not)".into(),
         "abort() returning Ok after a chain reported an error on the results channel is not flagged: the statement's 'through wait_timeout/abort' is satisfied by wait_timeout (DESIGN.md §5 C13)".into(),
     ], json!({}))
@@ -423,6 +479,7 @@ pub fn gen_store(seed: u64, prop: &'static str, backends: &[Backend]) -> StoreSc
         inspect_prob: *rw.pick(&[0.0, 0.0, 0.1, 0.3]),
         filesystem: false,
         fail_write: None,
+        fail_write_from_end: None,
     }
 }
 
